@@ -99,3 +99,36 @@ fn n08_record_tail_text_grammar() {
     assert!(accepted > 1000);
     eprintln!("EVALUATIONS: {}", n);
 }
+
+// The board field as text: records whose first field is built from rank tokens (1..=10 ranks, all
+// "8" except two positions taking every pair of tokens). Nothing may panic; accepted text must be
+// stable under parse -> format -> parse.
+#[cfg(not(kani))]
+#[test]
+fn n12_board_field_text_grammar() {
+    let toks = ["8", "7p", "p7", "44", "9", "1p6", "pppppppp", "ppppppppp", "4P3", "", "k", "0", "-", "p.6", "PNBRQKpn", "11111111", "x7", "p8"];
+    let mut n = 0u64;
+    let mut accepted = 0u64;
+    for nr in 1..=10usize {
+        for i in 0..nr { for j in i..nr { for a in toks { for b in toks {
+            if i == j && a != b { continue; }
+            let mut ranks = vec!["8"; nr];
+            ranks[i] = a; ranks[j] = b;
+            for tail in [" w - - 0 1", "", " b KQkq - 3 7"] {
+                let txt = format!("{}{}", ranks.join("/"), tail);
+                n += 1;
+                if let Ok(v) = RawBoard::from_str(&txt) {
+                    accepted += 1;
+                    let again = v.to_string();
+                    let back = RawBoard::from_str(&again);
+                    if back.as_ref().ok() != Some(&v) {
+                        eprintln!("REPLAY-INPUT: text {:?} is accepted, formats to {:?}, which parses to {:?}", txt, again, back);
+                        panic!("FEN board field parse-format-parse");
+                    }
+                }
+            }
+        } } } }
+    }
+    assert!(accepted > 100);
+    eprintln!("EVALUATIONS: {}", n);
+}
